@@ -31,6 +31,7 @@ type Engine struct {
 	globIDs     map[*types.Var]int
 	specFiles   []string
 	globCache   map[string]string
+	verifDir    string
 }
 
 func LoadEngine(repo string, patterns []string, extraSpecs []string) (*Engine, error) {
